@@ -386,6 +386,36 @@ def _r3(model, res, c):
                     res.violation('R3', '%s:%s:register_for-at-runtime' % (m.name, m.qualname_of(n)), m.where(n),
                                   'register_for is used inside a function body (not as a module-level decorator or import-time statement): the shared registry can change after import',
                                   func=m.qualname_of(n))
+    # ... and the modules that carry those decorators are imported when the package is imported, not by a function at run time
+    registering = sorted(mm.name for mm in model.modules.values()
+                         if any(isinstance(n_, ast.Attribute) and n_.attr == 'register_for' for n_ in ast.walk(mm.tree)) and
+                         not any(isinstance(x, ast.FunctionDef) and x.name == 'register_for' for x in ast.walk(mm.tree)))
+    for rname in registering:
+        leaf = rname.split('.')[-1]
+        top, lazy = [], []
+        for mm in model.modules.values():
+            for st in ast.walk(mm.tree):
+                names = []
+                if isinstance(st, ast.ImportFrom):
+                    names = [a.name for a in st.names] + ([st.module.split('.')[-1]] if st.module else [])
+                elif isinstance(st, ast.Import):
+                    names = [a.name.split('.')[-1] for a in st.names]
+                elif isinstance(st, ast.Call) and (sa.call_name(st) or '').endswith('import_module') or \
+                        isinstance(st, ast.Call) and sa.call_name(st) == '__import__':
+                    names = [a.value.split('.')[-1] for a in st.args if isinstance(a, ast.Constant) and isinstance(a.value, str)]
+                if leaf not in names or mm.name == rname:
+                    continue
+                fn_ = mm.enclosing_function(st)
+                (lazy if fn_ is not None else top).append((mm, st))
+        if lazy and not top:
+            mm, st = lazy[0]
+            res.ob('R3', rname, 'the registering module is imported at package import time', False, src(st)[:60])
+            res.violation('R3', '%s:lazy-registration' % rname, mm.where(st),
+                          'the module %s registers its functions when it is imported, and the only import of it is inside %s: the shared registry '
+                          'fills during the first evaluation(s) - a second thread evaluating meanwhile finds some functions and not others '
+                          '(#NAME? for a built-in)' % (rname, mm.qualname_of(st)), func=mm.qualname_of(st))
+        elif top:
+            res.ob('R3', rname, 'the registering module is imported at package import time', True)
     res.ob('R3', 'package', 'all %d references to register_for are module-level decorators' % n_ref, True)
     res.floor('register_for decorator uses', n_ref, 100)
 
